@@ -1,5 +1,215 @@
-import XlVerif.Base
-/-! Driver for C18 (stub: replaced when the property's model is built). -/
+import XlVerif.Model.C18
+import XlVerif.Spec.C18
+/-!
+  Driver for C18: `C18 <OP> <args…>` → `impl=<out>  spec=<out|ERR|->`.
+
+  Arguments: `I:<int>` / `F:<num>/<den>` = a number (for an XlDateTime parameter it is cast with
+  `number_to_datetime`, as `DateTime.cast` does), `P:<day>:<num>/<den>` = a Python datetime (days from
+  1900-01-01 and seconds into the day), `T:<code points>` = text, `O` = argument omitted.
+  Outputs: a value in the wire format of `Base`, `E:<CODE>` for an Excel error value, `X:<Exception>`
+  for a Python exception.  A datetime is printed as `D:<serial>` with the serial computed the way the
+  harness canonicalises a `datetime` (days from 1899-12-31, one more after 1900-02-28, plus the
+  time of day as a fraction) — *not* with the model's `datetimeToNumber`.
+  `spec=-` means the statement does not determine the result for this input.
+-/
 namespace XlVerif.Drv.C18
-def handle (_fields : List String) : String := "error=not-implemented"
+open XlVerif XlVerif.Model.C18
+
+def showRes {α} (f : α → String) : Res α → String
+  | .ok a => f a
+  | .err c => "E:" ++ c.wire
+  | .crash k => "X:" ++ k.wire
+
+def nm (z : Int) : String := (S.num (.int z)).wire
+def fl (q : Rat) : String := (S.num (.flt q)).wire
+
+/-- a datetime as the serial the harness computes for it (independent of `datetimeToNumber`) -/
+def dtWire (t : DT) : String :=
+  let whole : Int := if t.day > 58 then t.day + 2 else t.day + 1
+  (S.date ((whole : Rat) + t.sec / 86400)).wire
+
+inductive Arg | num (n : Num) | dt (t : DT) | text (s : List Char) | omitted
+
+def parseArg (s : String) : Option Arg :=
+  if s == "O" then some .omitted
+  else if s.startsWith "P:" then
+    match ((s.drop 2).toString).splitOn ":" with
+    | [d, q] => do
+        let day ← parseInt? d
+        let sec ← parseRat? q
+        some (.dt ⟨day, sec⟩)
+    | _ => none
+  else match S.ofWire? s with
+    | some (.num n) => some (.num n)
+    | some (.text t) => some (.text t)
+    | _ => none
+
+/-- `DateTime.cast` of an argument -/
+def asDT : Arg → Option (Res DT)
+  | .num n => some (castDateTime n)
+  | .dt t => some (.ok t)
+  | _ => none
+
+def specDate (c : Spec.C18.Date) : String := s!"{c.y}-{c.m}-{c.d}"
+
+def optW {α} (f : α → String) : Option α → String
+  | some a => f a
+  | none => "ERR"
+
+/-- whole serial of an argument that denotes a whole day of the date system, else none -/
+def wholeSerial : Arg → Option Int
+  | .num n =>
+    let q := n.toRat
+    if q.den = 1 ∧ 1 ≤ q.num ∧ q.num ≤ Spec.C18.maxSerial ∧ q.num ≠ 60 then some q.num else none
+  | .dt t =>
+    if t.sec = 0 ∧ 0 ≤ t.day ∧ t.day ≤ maxDay then some (if t.day > 58 then t.day + 2 else t.day + 1) else none
+  | _ => none
+
+def specDateOfArg (a : Arg) : Option Spec.C18.Date := (wholeSerial a).bind Spec.C18.dateOf
+
+def allTypes : List Int := [1, 2, 3, 11, 12, 13, 14, 15, 16, 17]
+
+def join (l : List String) : String := "|".intercalate l
+
+/-- YEAR | MONTH | DAY | ISOWEEKNUM | WEEKDAY() | WEEKDAY(·,k) for the ten documented k -/
+def fieldsImpl (n : Num) : String :=
+  let wds := allTypes.map fun k => showRes nm (WEEKDAY n (some (.int k)))
+  let iso := match castDateTime n with
+    | .ok t => showRes nm (ISOWEEKNUM t)
+    | .err c => "E:" ++ c.wire
+    | .crash k => "X:" ++ k.wire
+  join ([showRes nm (YEAR n), showRes nm (MONTH n), showRes nm (DAY n), iso,
+         showRes nm (WEEKDAY n none)] ++ wds)
+
+def fieldsSpec (n : Num) : String :=
+  match specDateOfArg (.num n) with
+  | none => "-"
+  | some c =>
+    let iso := Spec.C18.isoWeekday c
+    let wds := allTypes.map fun k => optW nm (Spec.C18.weekdayNum k iso)
+    join ([nm c.y, nm c.m, nm c.d, nm (Spec.C18.isoWeek c), optW nm (Spec.C18.weekdayNum 1 iso)] ++ wds)
+
+def bind2 (a b : Res DT) (f : DT → DT → String) : String :=
+  match a, b with
+  | .ok x, .ok y => f x y
+  | .err c, _ => "E:" ++ c.wire
+  | .crash k, _ => "X:" ++ k.wire
+  | _, .err c => "E:" ++ c.wire
+  | _, .crash k => "X:" ++ k.wire
+
+def bind1 (a : Res DT) (f : DT → String) : String :=
+  match a with
+  | .ok x => f x
+  | .err c => "E:" ++ c.wire
+  | .crash k => "X:" ++ k.wire
+
+/-- whole basis of a number, if it is whole -/
+def wholeNum (n : Num) : Option Int := let q := n.toRat; if q.den = 1 then some q.num else none
+
+def lt (a b : Spec.C18.Date) : Bool := decide (Spec.C18.ordinal a < Spec.C18.ordinal b)
+
+def handleOp (op : String) (args : List Arg) : Option (String × String) :=
+  match op, args with
+  | "FIELDS", [.num n] => some (fieldsImpl n, fieldsSpec n)
+  | "WEEKDAY", [.num n, rt] =>
+    let r : Option (Option Num) := match rt with
+      | .omitted => some none | .num k => some (some k) | _ => none
+    r.map fun r =>
+      let spec := match specDateOfArg (.num (.int (pyInt n))), r with
+        | some c, none => optW nm (Spec.C18.weekdayNum 1 (Spec.C18.isoWeekday c))
+        | some c, some k => optW nm (Spec.C18.weekdayNum (pyInt k) (Spec.C18.isoWeekday c))
+        | none, _ => "-"
+      (showRes nm (WEEKDAY n r), spec)
+  | "N2D", [.num n] =>
+    -- serial → datetime: the date of the whole part, the fraction as time of day
+    let q := n.toRat
+    let spec := match wholeSerial (.num (.int q.floor)) with
+      | some _ => (S.date q).wire
+      | none => "-"
+    some (showRes dtWire (numberToDatetime n), spec)
+  | "D2N", [.dt t] =>
+    let spec := match wholeSerial (.dt ⟨t.day, 0⟩) with
+      | some s => fl ((s : Rat) + t.sec / 86400)
+      | none => "-"
+    some (fl (datetimeToNumber t), spec)
+  | "DATE", [.num y, .num m, .num d] =>
+    let spec := match Spec.C18.date (pyInt y) (pyInt m) (pyInt d) with
+      | some s => if s ≤ Spec.C18.maxSerial then (S.date (s : Rat)).wire else "-"
+      | none => "ERR"
+    some (showRes dtWire (DATE y m d), spec)
+  | "EDATE", [a, .num k] =>
+    (asDT a).map fun r =>
+      let spec := match specDateOfArg a with
+        | some c => (match Spec.C18.edate c (pyInt k) with
+          | some s => if s ≤ Spec.C18.maxSerial then (S.date (s : Rat)).wire else "-"
+          | none => "ERR")
+        | none => "-"
+      (bind1 r fun t => showRes dtWire (EDATE t k), spec)
+  | "EOMONTH", [a, .num k] =>
+    (asDT a).map fun r =>
+      let spec := match specDateOfArg a with
+        | some c => (match Spec.C18.eomonth c (pyInt k) with
+          | some s => if s ≤ Spec.C18.maxSerial then fl (s : Rat) else "-"
+          | none => "ERR")
+        | none => "-"
+      (bind1 r fun t => showRes fl (EOMONTH t k), spec)
+  | "ISOWEEKNUM", [a] =>
+    (asDT a).map fun r =>
+      let spec := match specDateOfArg a with
+        | some c => nm (Spec.C18.isoWeek c)
+        | none => "-"
+      (bind1 r fun t => showRes nm (ISOWEEKNUM t), spec)
+  | "DAYS", [e, s] =>
+    match asDT e, asDT s with
+    | some re, some rs =>
+      let spec := match wholeSerial e, wholeSerial s with
+        | some x, some y => if (x < 60) = (y < 60) then fl ((x - y : Int) : Rat) else "-"
+        | _, _ => "-"
+      some (bind2 re rs fun x y => showRes fl (DAYS x y), spec)
+    | _, _ => none
+  | "DATEDIF", [s, e, .text u] =>
+    match asDT s, asDT e with
+    | some rs, some re =>
+      let uu := u.map upperChar
+      let spec := match wholeSerial s, wholeSerial e, specDateOfArg s, specDateOfArg e with
+        | some x, some y, some a, some b =>
+          if x > y then "-"
+          else if uu = ['D'] then (if (x < 60) = (y < 60) then nm (Spec.C18.ordinal b - Spec.C18.ordinal a) else "-")
+          else if uu = ['M'] then nm (Spec.C18.completeMonths a b)
+          else if uu = ['Y'] then nm (Spec.C18.completeYears a b)
+          else "-"
+        | _, _, _, _ => "-"
+      some (bind2 rs re fun x y => showRes nm (DATEDIF x y u), spec)
+    | _, _ => none
+  | "YEARFRAC", [s, e, .num b] =>
+    match asDT s, asDT e with
+    | some rs, some re =>
+      let spec := match specDateOfArg s, specDateOfArg e with
+        | some a, some c =>
+          let (a, c) := if lt c a then (c, a) else (a, c)
+          (match wholeNum b with
+           | some k =>
+             if k = 0 ∨ k = 4 then
+               (if Spec.C18.Plain360 a ∧ Spec.C18.Plain360 c then optW fl (Spec.C18.yearfrac a c k) else "-")
+             else optW fl (Spec.C18.yearfrac a c k)
+           | none => "-")
+        | _, _ => "-"
+      some (bind2 rs re fun x y => showRes fl (YEARFRAC x y b), spec)
+    | _, _ => none
+  | "SPECDATE", [.num n] =>
+    -- the reference date of a serial (for the harness' own cross-check against Python's datetime)
+    some ("-", match specDateOfArg (.num n) with | some c => specDate c | none => "-")
+  | _, _ => none
+
+def handle (fields : List String) : String :=
+  match fields with
+  | op :: rest =>
+    match rest.mapM parseArg with
+    | none => "error=bad-args"
+    | some args =>
+      match handleOp op args with
+      | some (i, s) => kv [("impl", i), ("spec", s)]
+      | none => "error=bad-request"
+  | [] => "error=empty"
+
 end XlVerif.Drv.C18
